@@ -264,6 +264,15 @@ func (r *rng) item(p profile, w, h int) (int, string) {
 	case kQuery:
 		return kind, r.pick("\x1b[c", "\x1b[0c", "\x1b[>c", "\x1b[5n", "\x1b[6n", "\x1b[?u", "\x1b[1c", "\x1b[>0c", "\x1b[6n", "\x1b[n", "\x1b[7n")
 	case kKbd:
+		if r.chance(1, 6) {
+			// a burst of pushes with distinct flags: several of these exceed the 32-entry limit
+			s := ""
+			n := 12 + r.n(30)
+			for i := 0; i < n; i++ {
+				s += fmt.Sprintf("\x1b[>%du", 1+r.n(31))
+			}
+			return kind, s
+		}
 		switch r.n(5) {
 		case 0:
 			return kind, fmt.Sprintf("\x1b[=%d;%du", r.n(32), r.n(5))
